@@ -212,7 +212,7 @@ def build(d: dict[str, Any], segs: dict[str, Any]) -> bytes:
         arrays, fields = [], []
         for i in range(d["ncols"]):
             _n, arr = plain_array(rng, rows)
-            nm = rng.choice(["a", "b", "s", "a", "ctx", "", "ü", "x" * 50])
+            nm = rng.choice(["a", "b", "s", "a", "ctx", "", "ü", "x" * 50, b"x\xf2y"])       # the last: not UTF-8
             fields.append(pa.field(nm, arr.type, nullable=d["nullable"] or arr.null_count > 0))
             arrays.append(arr)
         schema = pa.schema(fields)
@@ -556,6 +556,20 @@ def _pool() -> Any:
     return ProcessPoolExecutor(max_workers=max(2, min(8, (os.cpu_count() or 2) // 2)), mp_context=mp.get_context("fork"))
 
 
+def _badname_seed() -> int:
+    import random
+
+    for seed in range(10_000):
+        rng = random.Random(seed)
+        plain_array(rng, 1)
+        if rng.choice(["a", "b", "s", "a", "ctx", "", "ü", "x" * 50, b"x\xf2y"]) == b"x\xf2y":
+            return seed
+    return 0
+
+
+BADNAME_SEED = _badname_seed()
+
+
 def corpus_descs() -> list[dict[str, Any]]:
     base = {"method": "add", "version": "31", "md": {}, "seg_kind": "none", "pointer": None, "rows": 1, "cols": "declared", "ncols": 2,
             "nullable": False, "batches": 1, "no_md": False, "colseed": 1}
@@ -581,6 +595,8 @@ def corpus_descs() -> list[dict[str, Any]]:
         w(cols="nasty", colseed=5), w(cols="nasty", colseed=6), w(cols="nasty", colseed=7), w(cols="nasty", colseed=8),
         w(method="\xff"), w(method=None), w(version=None), w(version="32"), w(rows=3), w(rows=0), w(method="boom", ncols=1),
         w(method="__transport_options__", cols="arbitrary", ncols=0), w(method="nope"),
+        # column name that is not UTF-8 (colseed chosen so that the name pool yields it), right and wrong row count
+        w(cols="arbitrary", ncols=1, colseed=BADNAME_SEED), w(cols="arbitrary", ncols=1, colseed=BADNAME_SEED, rows=2),
     ]
 
 
@@ -613,8 +629,8 @@ def run_corpus(job: dict[str, Any]) -> list[dict[str, Any]]:
 
 def run(ctx: Any) -> None:
     rng = ctx.rng
-    n_req = ctx.budget(1500, 60000)
-    n_cor = ctx.budget(300, 12000)
+    n_req = ctx.budget(1500, 20000)
+    n_cor = ctx.budget(300, 4000)
     chunk = 100
     jobs: list[dict[str, Any]] = []
     for _ in range(max(1, n_req // chunk)):
@@ -623,7 +639,7 @@ def run(ctx: Any) -> None:
         jobs.append({"kind": "corrupt", "n": chunk, "seed": rng.randrange(1 << 40)})
     if ctx.tier == "thorough":
         # truncation at EVERY offset of a few streams
-        for s in range(ctx.budget(1, 6)):
+        for s in range(ctx.budget(1, 4)):
             jobs.append({"kind": "corrupt", "n": 700, "seed": 1000 + s, "offsets": list(range(700))})
     results: list[list[dict[str, Any]]] = []
     try:
@@ -670,5 +686,8 @@ def reprobe(case: dict[str, Any], deadline: float) -> dict[str, Any]:
         drop_segments(segs)
 
 
-def replay(ctx: Any, case: dict[str, Any]) -> None:
+def replay(ctx: Any, case: dict[str, Any] | None) -> None:
+    if case is None:          # a "no-longer-checks" replay carries no single failing input: run the check
+        run(ctx)
+        return
     judge(ctx, reprobe(case, 10.0))
